@@ -7,7 +7,7 @@ import re
 LOCAL_AS = 65000
 ROUTER_ID = "1.1.1.1"
 LOCAL_ADDR = "10.0.0.254"
-PREFIXES = ["10.1.0.0/24", "10.2.0.0/24", "10.3.0.0/16", "10.1.0.0/25"]
+PREFIXES = ["10.1.0.0/24", "10.2.0.0/24", "10.3.0.0/16", "10.1.0.0/25", "0.0.0.0/0"]      # the default route covers every lookup
 
 
 class Peer:
